@@ -485,12 +485,71 @@ def r20_5(ctx):
     ctx.count('external_type_switches', n_sw)
 
 
+BULK_WRITERS = {'memcpy': 0, 'memmove': 0, 'strcpy': 0, 'strncpy': 0, 'strlcpy': 0}
+
+
+def r20_6(ctx):
+    """a sized string's bytes and its length are written together: a function that fills
+    `s->c_string` with a bulk copy also assigns `s->length` on every path on which the copy
+    happens.  String values (module strings, string externals) are compared, searched and
+    matched by length; a copy into an existing sized string that leaves the old length in
+    place makes the variable read as the new bytes followed by the tail of the old ones."""
+    from .C14 import canon
+    prog = ctx.prog
+    n = 0
+    for f in prog.fns():
+        if not (f.file.startswith('libyara/') or ctx.fixture):
+            continue
+        writes = []
+        for c in f.calls():
+            if c.get('callee') not in BULK_WRITERS:
+                continue
+            a = f.call_args(c)
+            d = cu.strip_casts(f, a[BULK_WRITERS[c['callee']]]) if a else None
+            if d is None or d['k'] != 'member' or d['fld'] != 'c_string' or \
+                    d.get('rec') not in ('SIZED_STRING', '_SIZED_STRING'):
+                continue
+            writes.append((c, canon(f, f.kid(d, 0))))
+        for k, (c, X) in enumerate(sorted(writes, key=lambda x: (x[0].get('l', 0), x[0]['i']))):
+            n += 1
+            bad = []
+            wid = c['i']
+
+            def step(x, facts, X=X, wid=wid):
+                if x['k'] == 'bin' and x['op'] == '=':
+                    l = canon(f, f.kid(x, 0))
+                    if l == '%s->length' % X or l == '(*%s).length' % X:
+                        return frozenset(facts) | {'len'}
+                    if l == X:
+                        return frozenset()          # X designates another string from here on
+                if x['i'] == wid:
+                    return frozenset(facts) | {'wrote'}
+                if x['k'] == 'ret':
+                    if 'wrote' in facts and 'len' not in facts:
+                        bad.append(x)
+                    return None
+                return facts
+            try:
+                paths.explore(f, set(), step, None, max_states=4096)
+            except paths.Budget:
+                ctx.note('R20.6 %s: budget exceeded (not decided)' % f.name)
+                continue
+            ctx.ob('R20.6', '%s:%s#%d:length-written-with-bytes' % (f.name, X, k), not bad,
+                   f.loc(bad[0]) if bad else f.loc(c),
+                   '%s->length is assigned on every path on which %s->c_string is filled' % (X, X) if not bad else
+                   '%s->c_string is overwritten (at %s) and the function returns here without having '
+                   'assigned %s->length on this path: the string keeps its old length' % (X, f.loc(c), X))
+    return n
+
+
 FIXTURES = {
     'R20.5': {'src': 'C20/define.c', 'run': r20_5, 'expect': 'to_object_bad:switch0:handles-every-external-type',
               'expect_ok': 'to_object_good:switch0:handles-every-external-type'},
     'R20.1': {'src': 'C20/define.c', 'run': r20_1,
               'expect': 'yr_rules_define_integer_variable:type-check-dominates-store',
               'expect_ok': 'yr_rules_define_string_variable:type-check-dominates-store'},
+    'R20.6': {'src': 'C20/define.c', 'run': r20_6, 'expect': 'ss_overwrite_bad:s#0:length-written-with-bytes',
+              'expect_ok': 'ss_overwrite_good:s#0:length-written-with-bytes'},
 }
 
 
@@ -504,3 +563,5 @@ def run(ctx):
     ctx.floor('R20.4', 8)
     r20_5(ctx)
     ctx.floor('R20.5', 1)
+    r20_6(ctx)
+    ctx.floor('R20.6', 4)
